@@ -68,7 +68,7 @@ def run_live(ctx, binary, data, n):
                 live_len=len(while_open), **{"in": [], "out": [], "file": []})
 
 
-def run_logger(ctx, binary, data, seed, chunk, pause_ms, n, paced=False, pre=b""):
+def run_logger(ctx, binary, data, seed, chunk, pause_ms, n, paced=False, pre=b"", stall_out=0.0):
     d = ctx.path("run%d" % n)
     os.makedirs(d)
     logdir = os.path.join(d, "rec")
@@ -87,10 +87,25 @@ def run_logger(ctx, binary, data, seed, chunk, pause_ms, n, paced=False, pre=b""
     day1 = datetime.date.today().isoformat()
     p = subprocess.Popen([binary, "-c", cfg], cwd=d, env=env, stdin=subprocess.PIPE, stdout=subprocess.PIPE, stderr=subprocess.PIPE)
     outbuf = []
-    t = threading.Thread(target=lambda: outbuf.append(p.stdout.read()))
+    go_read = threading.Event()
+    if not stall_out:
+        go_read.set()
+
+    def reader():
+        go_read.wait()
+        outbuf.append(p.stdout.read())
+    t = threading.Thread(target=reader)
     t.start()
     i = 0
     try:
+        if stall_out:
+            # whoever reads our stdout is busy: nothing is taken from the pipe until well after the input has ended
+            threading.Timer(stall_out, go_read.set).start()
+            w = threading.Thread(target=lambda: (p.stdin.write(data), p.stdin.close()))
+            w.daemon = True
+            w.start()
+            i = len(data)
+            w.join(stall_out + 60)
         while i < len(data):
             k = chunk if paced else rng.randint(1, chunk)
             p.stdin.write(data[i:i + k])
@@ -100,7 +115,8 @@ def run_logger(ctx, binary, data, seed, chunk, pause_ms, n, paced=False, pre=b""
                 time.sleep(0.003)          # every chunk arrives as its own read
             elif rng.random() < 0.15:
                 time.sleep(rng.random() * 0.004)
-        p.stdin.close()
+        if not stall_out:
+            p.stdin.close()
     except BrokenPipeError:
         pass
     try:
@@ -172,6 +188,13 @@ def run(ctx, replay):
         ev = run_logger(ctx, binary, data, rng.getrandbits(30), max(1, nin), 0, 900 + k, pre=pre)
         if not ev["midnight"]:
             events.append(ev)
+    # the consumer of stdout is stalled until 3 s after the input has ended (more data than a pipe holds is in flight)
+    for k, size in enumerate([150000] + ([400000, 70000] if ctx.thorough() else [])):
+        r3 = random.Random(ctx.seed * 31 + size)
+        ev = run_logger(ctx, binary, r3.randbytes(size), rng.getrandbits(30), size, 0, 950 + k, stall_out=3.0)
+        ev["chunk"] = -3
+        if not ev["midnight"]:
+            events.append(ev)
     for n, (data, seed, chunk, pause) in enumerate(jobs):
         if chunk < 0:      # fixed-size paced chunks
             ev = run_logger(ctx, binary, data, seed, -chunk, pause, n, paced=True)
@@ -209,7 +232,7 @@ def run(ctx, replay):
         level="model_checking",
         rule="one case = (input bytes, chunking/timing of stdin, schedule) through the built rtcmlogger binary over OS pipes, exit awaited, record file read afterwards; sizes around "
              "the 8096-byte block (0, 1, 17, 8095, 8096, 8097, 3x8096+5, 12 MB; thorough: up to 40 MB), binary content; schedule: the Logger.tla counterexample forced with "
-             "VERIF_PAUSE_rec.write (recorder held before its write while the copy loop reaches EOF and main exits) free-running, restarts on the same day (the day's record file already holds an earlier run's bytes and must keep them in front of the new ones), and 'live' runs in which a burst (incl. exactly 1 and 2 blocks) is followed by silence on an open stdin and must appear on stdout within 8 s; non-trivial = non-empty input",
+             "VERIF_PAUSE_rec.write (recorder held before its write while the copy loop reaches EOF and main exits) free-running, restarts on the same day (the day's record file already holds an earlier run's bytes and must keep them in front of the new ones), a consumer of stdout that takes nothing until 3 s after the input has ended (150 kB in flight), and 'live' runs in which a burst (incl. exactly 1 and 2 blocks) is followed by silence on an open stdin and must appear on stdout within 8 s; non-trivial = non-empty input",
         assumptions=["equality is judged on length and SHA-1 for every run and byte by byte for inputs up to 1500 bytes",
                      "the pause only delays the recorder: on a correct implementation it merely slows the exit",
                      "runs during which the local date changed are dropped"],
